@@ -258,7 +258,7 @@ def _print_sinks(ctx):
         sm = eng.walk(q)
         for p in sm.paths:
             for ev, _d in flatten_events(p.events):
-                _collect_prints(ev, seen)
+                _collect_prints(ev, seen, p.facts, eng)
     for key, (site, unsafe) in sorted(seen.items()):
         ctx.count("R5.print_sinks")
         ctx.ob(
@@ -270,13 +270,29 @@ def _print_sinks(ctx):
         )
 
 
-def _collect_prints(ev, seen):
+class _PrintCtx:
+    """what tables.ascii_safe_leaf needs: the facts in force and constant resolution"""
+
+    def __init__(self, eng, facts):
+        from .hexlang import _W
+
+        self.s = State(facts=set(facts))
+        self.w = _W(eng)
+
+
+def _collect_prints(ev, seen, facts, eng):
     if ev[0] == "print":
+        from sa.tables import ascii_safe_leaf
+
         k = ev[1].key()
         cur = seen.setdefault(k, (ev[1], set()))
+        # pieces judged unsafe where the print stands (possibly inside a helper that prints its
+        # arguments) are judged again with what this path of the analysed function knows
+        pc = _PrintCtx(eng, facts)
         for lf in ev[3]:
-            cur[1].add(show(lf))
+            if not ascii_safe_leaf(pc, lf):
+                cur[1].add(show(lf))
     elif ev[0] == "loop":
         for bp in ev[4]:
             for ev2, _d in flatten_events(bp[2]):
-                _collect_prints(ev2, seen)
+                _collect_prints(ev2, seen, set(facts) | set(bp[4]), eng)
